@@ -6,7 +6,7 @@
 //! bytes with address auto-increment (burst), except address 0 (FIFO) which stays 0 and moves the
 //! 8-bit FifoAddrPtr instead — the pointer wraps from 255 to 0.
 
-use super::ChipModel;
+use super::{Air, AirKind, ChipModel, Held};
 
 pub const REG_FIFO: u8 = 0x00;
 pub const REG_OP_MODE: u8 = 0x01;
@@ -67,40 +67,102 @@ pub struct Chip127x {
     pub last_fifo_read: Option<(u8, usize)>,
     /// bit set per register address written since the last `clear_written`
     pub written: [bool; 128],
+    /// bit set per register address written since the last power-on / NRESET (registers keep their
+    /// values in sleep mode, datasheet 4.1.6 / table 15; only a reset restores the defaults)
+    pub since_por: [bool; 128],
+    pub power_ons: u32,
+    /// held configuration at the most recent RegOpMode write selecting TX, RXCONTINUOUS, RXSINGLE or CAD
+    pub air: Option<Air>,
+    pub air_count: u64,
+}
+
+fn reset_regs(kind: Kind) -> [u8; 128] {
+    let mut regs = [0u8; 128];
+    // reset values (datasheet register tables)
+    regs[REG_OP_MODE as usize] = 0x09;
+    regs[REG_FRF_MSB as usize] = 0x6C;
+    regs[REG_FRF_MID as usize] = 0x80;
+    regs[REG_PA_CONFIG as usize] = 0x4F;
+    regs[REG_PA_RAMP as usize] = 0x09;
+    regs[REG_OCP as usize] = 0x2B;
+    regs[REG_LNA as usize] = 0x20;
+    regs[REG_FIFO_TX_BASE_ADDR as usize] = 0x80;
+    regs[REG_MODEM_CONFIG2 as usize] = 0x70;
+    regs[REG_SYMB_TIMEOUT_LSB as usize] = 0x64;
+    regs[REG_PREAMBLE_LSB as usize] = 0x08;
+    regs[REG_PAYLOAD_LENGTH as usize] = 0x01;
+    regs[REG_DETECT_OPTIMIZE as usize] = 0xC3;
+    match kind {
+        Kind::Sx1276 => {
+            regs[REG_MODEM_CONFIG1 as usize] = 0x72;
+            regs[REG_MODEM_CONFIG3 as usize] = 0x00;
+            regs[REG_VERSION as usize] = 0x12;
+            regs[REG_PA_DAC_SX1276 as usize] = 0x84;
+        }
+        Kind::Sx1272 => {
+            regs[REG_MODEM_CONFIG1 as usize] = 0x08;
+            regs[REG_MODEM_CONFIG2 as usize] = 0x74;
+            regs[REG_VERSION as usize] = 0x22;
+            regs[REG_PA_DAC_SX1272 as usize] = 0x84;
+        }
+    }
+    regs
 }
 
 impl Chip127x {
     pub fn new(kind: Kind) -> Self {
-        let mut regs = [0u8; 128];
-        // reset values (datasheet register tables)
-        regs[REG_OP_MODE as usize] = 0x09;
-        regs[REG_FRF_MSB as usize] = 0x6C;
-        regs[REG_FRF_MID as usize] = 0x80;
-        regs[REG_PA_CONFIG as usize] = 0x4F;
-        regs[REG_PA_RAMP as usize] = 0x09;
-        regs[REG_OCP as usize] = 0x2B;
-        regs[REG_LNA as usize] = 0x20;
-        regs[REG_FIFO_TX_BASE_ADDR as usize] = 0x80;
-        regs[REG_MODEM_CONFIG2 as usize] = 0x70;
-        regs[REG_SYMB_TIMEOUT_LSB as usize] = 0x64;
-        regs[REG_PREAMBLE_LSB as usize] = 0x08;
-        regs[REG_PAYLOAD_LENGTH as usize] = 0x01;
-        regs[REG_DETECT_OPTIMIZE as usize] = 0xC3;
-        match kind {
-            Kind::Sx1276 => {
-                regs[REG_MODEM_CONFIG1 as usize] = 0x72;
-                regs[REG_MODEM_CONFIG3 as usize] = 0x00;
-                regs[REG_VERSION as usize] = 0x12;
-                regs[REG_PA_DAC_SX1276 as usize] = 0x84;
-            }
-            Kind::Sx1272 => {
-                regs[REG_MODEM_CONFIG1 as usize] = 0x08;
-                regs[REG_MODEM_CONFIG2 as usize] = 0x74;
-                regs[REG_VERSION as usize] = 0x22;
-                regs[REG_PA_DAC_SX1272 as usize] = 0x84;
-            }
+        Chip127x {
+            kind,
+            regs: reset_regs(kind),
+            fifo: [0; 256],
+            irq_on_rx: 0,
+            irq_on_tx: IRQ_TX_DONE,
+            writes: 0,
+            exchanges: 0,
+            last_fifo_read: None,
+            written: [false; 128],
+            since_por: [false; 128],
+            power_ons: 0,
+            air: None,
+            air_count: 0,
         }
-        Chip127x { kind, regs, fifo: [0; 256], irq_on_rx: 0, irq_on_tx: IRQ_TX_DONE, writes: 0, exchanges: 0, last_fifo_read: None, written: [false; 128] }
+    }
+
+    /// NRESET: every register returns to its reset value (FSK/OOK standby included). The FIFO content and
+    /// what the harness scripts (flags to raise, reported length / address: those registers are written
+    /// by the harness at "reception" time) are not configuration.
+    pub fn power_on(&mut self) {
+        let keep = [REG_RX_NB_BYTES, REG_FIFO_RX_CURRENT_ADDR, REG_PKT_SNR_VALUE, REG_PKT_RSSI_VALUE, REG_RSSI_VALUE];
+        let saved: Vec<u8> = keep.iter().map(|a| self.regs[*a as usize]).collect();
+        self.regs = reset_regs(self.kind);
+        for (a, v) in keep.iter().zip(saved) {
+            self.regs[*a as usize] = v;
+        }
+        self.since_por = [false; 128];
+        self.power_ons += 1;
+    }
+
+    /// the configuration the chip holds right now. The SX127x reset values are documented (datasheet
+    /// register tables) and are what the chip runs with until a register is written, so every field is
+    /// the register content, written or not: after NRESET that is the reset value (434.000 MHz, LDRO off,
+    /// explicit header, RegPaConfig 0x4F, 100 symbols ...), which only by coincidence is somebody's request.
+    pub fn held(&self) -> Held {
+        let implicit_bit = match self.kind {
+            Kind::Sx1276 => 0x01u8,
+            Kind::Sx1272 => 0x04u8,
+        };
+        Held {
+            lora_mode: self.reg(REG_OP_MODE) & 0x80 != 0,
+            freq_word: Some(self.frf()),
+            modp: None,
+            ldro: Some(self.ldro_bit() as u8),
+            pkt_implicit: Some(self.reg(REG_MODEM_CONFIG1) & implicit_bit != 0),
+            pkt_len: Some(self.reg(REG_PAYLOAD_LENGTH)),
+            pa126: None,
+            txp126: None,
+            pa127: Some((self.reg(REG_PA_CONFIG), self.pa_dac())),
+            symb: vec![("SymbTimeout", self.symb_timeout())],
+        }
     }
 
     pub fn reg(&self, a: u8) -> u8 {
@@ -146,6 +208,7 @@ impl Chip127x {
     fn write_reg(&mut self, a: u8, v: u8) {
         self.writes += 1;
         self.written[a as usize] = true;
+        self.since_por[a as usize] = true;
         if Self::read_only(a) {
             return;
         }
@@ -153,6 +216,16 @@ impl Chip127x {
             REG_IRQ_FLAGS => self.regs[a as usize] &= !v, // write 1 to clear
             REG_OP_MODE => {
                 self.regs[a as usize] = v;
+                let kind = match v & 0x07 {
+                    0x05 | 0x06 => Some(AirKind::Rx),
+                    0x03 => Some(AirKind::Tx),
+                    0x07 => Some(AirKind::Cad),
+                    _ => None,
+                };
+                if let Some(kind) = kind {
+                    self.air = Some(Air { kind, held: self.held() });
+                    self.air_count += 1;
+                }
                 match v & 0x07 {
                     0x05 | 0x06 => self.regs[REG_IRQ_FLAGS as usize] |= self.irq_on_rx,
                     0x03 => self.regs[REG_IRQ_FLAGS as usize] |= self.irq_on_tx,
